@@ -193,6 +193,28 @@ def run(ctx):
     ctx.check("context-separation", "delegation-contexts", diff is not None, "delegation contexts differ at byte %s (inside both strings)" % diff,
               "one delegation context is a prefix of the other (%r / %r): a certificate could verify under both protocols" % (a, b))
 
+    # ------------------------------------------------------------------ (6b) "every certificate the server ever sends": the certificate is made once, when the
+    # responder is built, for the key the online signer holds at that moment.  It keeps certifying the key that signs only if no link of the chain
+    # Responder -> OnlineKey -> MsgSigner -> SigningKey (and LongTermKey -> MsgSigner) is replaced afterwards: no assignment to those fields, and no
+    # mutable borrow of them that goes anywhere else than into a method of the field's own type (mem::replace / swap / take need exactly that borrow).
+    from lib import field_replacement_sites
+    KEYTYPES = (SIGNER, sm.RESPONDER.rsplit("::", 2)[0] + "::key::online::OnlineKey", LTK)
+    chain = []
+    for adt in (sm.RESPONDER,) + KEYTYPES:
+        a = P.adts.get(adt)
+        if not a or not a.get("variants"):
+            raise AnchorMissing("definition of %s" % adt)
+        for x in a["variants"][0]["fields"]:
+            if x["ty"] in KEYTYPES or x["ty"].endswith("::SigningKey"):
+                chain.append((adt, x["name"], x["ty"]))
+    for adt, fld, ty in chain:
+        sites = field_replacement_sites(W, adt, fld)
+        ctx.check("certificate", "key-chain-fixed/%s.%s" % (adt.split("::")[-1], fld), not sites,
+                  "%s.%s (%s) is set when the value is constructed and never replaced" % (adt.split("::")[-1], fld, ty.split("::")[-1]),
+                  "; ".join(d for f, b, d in sites[:3]) + ": the certificate made at start-up no longer delegates the key that signs",
+                  sites[0][0].loc(sites[0][1]) if sites else None)
+    ctx.floor("certificate-key-chain", len(chain), 4, "links of the key chain (Responder.online_key, OnlineKey.signer, LongTermKey.signer, MsgSigner.signing_key)")
+
     # ------------------------------------------------------------------ (6) "every certificate the server ever sends, from any worker": the CERT a responder
     # sends is the one made for the online key that signs its responses.  C02's rules on how Responder::new builds cert_bytes and on which bytes
     # send_responses puts into CERT are obligations of C10 as well (a certificate cached per long-term key, reused by a responder with another online
